@@ -72,6 +72,10 @@ CHECKS = {
    text="DOM-truth monitor: an independent selector engine (parser, specificity, bit-parallel matcher over ALL ordered forests with <= 3 elements (thorough: 4) labelled over the features a case mentions) judges every claim: is-superselector(A,B) true => no element matched by B and not by A, reflexivity; selector-unify results match only elements matched by both arguments, null only when the conjunction of two compounds is empty; selector-parse round trip preserves the match set; selector-nest/-append equal the selectors of the equivalent nested rules; selector-extend equals (semantically) what `S{..} E{@extend T}` yields and selector-replace stays within it for negation-free selectors; any panic refutes",
    note="opaque features for attribute selectors and argument-less pseudo-classes; exactly one type, at most one id and pseudo-element per element; soundness (not completeness) of is-superselector/unify is demanded",
    technique="runtime monitoring: exhaustive small-model (DOM enumeration) oracle over probe-observed results + metamorphic comparison with the style-rule/@extend code paths"),
+ "C10": dict(engine="vw+vp",
+   text="DOM-truth monitor for @extend: the credited semantics (an element counts as matching target T iff it matches T natively or, recursively, an extender of T; least fixed point) is computed by the monitor on the SOURCE selectors and every rewritten selector read from the output is judged on all ordered forests with <= 3 elements (thorough: 4) over the case's features: soundness, completeness for single-compound extenders, first law, second law (negation/pseudo-free cases), no placeholder in the output, order independence (source order vs reversed, compared by match sets), plus the @media / !optional / missing-target families",
+   note="inside :not() only plain single-compound extenders are judged for soundness (Sass deliberately under-extends there); sheets combining negation with chained extends, and outputs too large for the DOM oracle, are inconclusive; five known findings (missing target accepted, extension across @media, self-extension blow-up, two order-dependence classes that mirror the reference algorithm) are matched narrowly",
+   technique="runtime monitoring: exhaustive small-model (DOM enumeration) oracle with credited-semantics fixed point over compiled outputs"),
 }
 
 ALL = ["C%02d" % i for i in range(1, 21)]
